@@ -1000,6 +1000,15 @@ mod anytext {
         ep!(v, "deb822_lossless::lossy::Paragraph::from_str", |s: &str| { let _ = deb822_lossless::lossy::Paragraph::from_str(s); });
         ep!(v, "lossless Relations::parse_relaxed(true)", |s: &str| { let _ = debian_control::lossless::relations::Relations::parse_relaxed(s, true); });
         ep!(v, "lossless Relations::parse_relaxed(false)", |s: &str| { let _ = debian_control::lossless::relations::Relations::parse_relaxed(s, false); });
+        ep!(v, "lossless Relations::parse_relaxed without errors, then every accessor of every relation (name, archqual, version, architectures, profiles) and the conversion to the lossy type", |s: &str| {
+            let (r, errs) = debian_control::lossless::relations::Relations::parse_relaxed(s, true);
+            if !errs.is_empty() { return; }
+            for e in r.entries() { for x in e.relations() {
+                let _ = x.name(); let _ = x.archqual(); let _ = x.version(); let _ = x.architectures().map(|a| a.count()); let _ = x.profiles().count();
+                let _: debian_control::lossy::Relation = x.into();
+            } }
+            let _ = r.substvars().count();
+        });
         ep!(v, "lossless Relations::from_str", |s: &str| { let _ = debian_control::lossless::relations::Relations::from_str(s); });
         ep!(v, "lossless Entry::from_str", |s: &str| { let _ = debian_control::lossless::relations::Entry::from_str(s); });
         ep!(v, "lossless Relation::from_str", |s: &str| { let _ = debian_control::lossless::relations::Relation::from_str(s); });
